@@ -41,7 +41,8 @@ Record tschema := mkSchema {
   s_fks : list fkey
 }.
 
-(** AppendModeTracker (storage/table/append_mode.rs): read by the bulk-transfer path's primary-key check only *)
+(** AppendModeTracker (storage/table/append_mode.rs): maintained by Table::insert; since 3f052076 no modelled code path
+    reads it (the bulk-transfer path's primary-key check used to) -- kept as the internal state it is *)
 Record appst := mkApp { a_last : option cell; a_streak : nat; a_mode : bool }.
 Definition app0 : appst := mkApp None 0 false.
 
@@ -305,30 +306,31 @@ Definition bulk_eligible (dst src : table) : bool :=
   && Nat.eqb (s_ncols (tb_schema dst)) (s_ncols (tb_schema src))
   && forallb (fun c => existsb (Nat.eqb c) (s_notnull (tb_schema src))) (s_notnull (tb_schema dst)).
 
-(** bulk_transfer.rs execute_bulk_transfer: per source row PK (batch, then the table's index unless the table is in
-    append mode), CHECK, FK, then Database::insert_row; no trigger is looked up on this path *)
+(** bulk_transfer.rs execute_bulk_transfer: every source row is checked first -- PK against the rows in front of it
+    and the table's index, CHECK, FK (types and NOT NULL are guaranteed by the schema compatibility) -- then all rows
+    are inserted with Database::insert_row.  The path is only taken when the destination has no INSERT trigger. *)
 Definition bulk_row_ok (d : db) (tb : table) (seen : list cell) (r : row) : bool :=
   let s := tb_schema tb in
   match s_pk s with
   | None => true
-  | Some c => negb (existsb (cell_eqb (cellv r c)) seen)
-              && (a_mode (tb_app tb) || negb (key_in_rows c (tb_rows tb) (cellv r c)))
+  | Some c => negb (existsb (cell_eqb (cellv r c)) seen) && negb (key_in_rows c (tb_rows tb) (cellv r c))
   end
   && checks_ok s r
   && fks_ok d s r.
 
-Fixpoint bulk_loop (d : db) (t : nat) (rows : list row) (k : nat) (seen : list cell) : db * outcome :=
+Fixpoint bulk_validate (d : db) (tb : table) (rows : list row) (k : nat) (seen : list cell) : option nat :=
   match rows with
-  | [] => (d, Ok k)
+  | [] => None
   | r :: rest =>
-      match get_table d t with
-      | None => (d, Err (AtBulk k) CzCheck k)
-      | Some tb =>
-          if bulk_row_ok d tb seen r
-          then bulk_loop (push_row d t r) t rest (S k)
-                         (match s_pk (tb_schema tb) with Some c => cellv r c :: seen | None => seen end)
-          else (d, Err (AtBulk k) CzCheck k)
-      end
+      if bulk_row_ok d tb seen r
+      then bulk_validate d tb rest (S k) (match s_pk (tb_schema tb) with Some c => cellv r c :: seen | None => seen end)
+      else Some k
+  end.
+
+Definition bulk_transfer (d : db) (t : nat) (tb : table) (rows : list row) : db * outcome :=
+  match bulk_validate d tb rows 0 [] with
+  | Some k => (d, Err (AtBulk k) CzCheck 0)
+  | None => (fold_left (fun d' r => push_row d' t r) rows d, Ok (length rows))
   end.
 
 (** SELECT without ORDER BY (select/executor/nonagg: "implicit ordering for deterministic results"): the rows are
@@ -430,8 +432,8 @@ Section Exec.
   Definition do_insert_select (ctx : tctx) (d : db) (t src : nat) (star : bool) : db * list firing * outcome :=
     match get_table d t, get_table d src with
     | Some dst, Some s =>
-        if star && bulk_eligible dst s
-        then let '(d', o) := bulk_loop d t (tb_rows s) 0 [] in (d', [], o)
+        if star && is_none (hd_error (triggers_for_table (d_trigs d) t EvInsert)) && bulk_eligible dst s
+        then let '(d', o) := bulk_transfer d t dst (tb_rows s) in (d', [], o)
         else if Nat.eqb (s_ncols (tb_schema dst)) (s_ncols (tb_schema s))
              then do_insert_rows ctx d t dst (map (map ELit) (select_order (tb_rows s)))
              else (d, [], Err AtResolve CzCheck 0)
@@ -532,7 +534,7 @@ Section Exec.
 
   Definition do_update (ctx : tctx) (d : db) (t : nat) (asg : list (nat * expr)) (w : option cond)
     : db * list firing * outcome :=
-    let ev := EvUpdate None in
+    let ev := EvUpdate (Some (map fst asg)) in   (* update_event: UPDATE of the assigned columns *)
     let '(d1, l1, r1) := if is_none ctx then fireS (d_trigs d) t Before ev d else (d, [], None) in
     match r1 with
     | Some c => (d1, l1, Err AtBeforeStmt c 0)
